@@ -1,4 +1,5 @@
 import RgVerif.Model.Sx
+import RgVerif.Model.Utf8
 /-
 C17 — model of the transcoding detour of `crates/searcher/src/searcher/mod.rs`
 (`slice_needs_transcoding`, `slice_has_bom`, `search_slice` → `search_reader`, the builder flags
@@ -125,6 +126,64 @@ def finish16 (s : U16) : Bytes :=
 def utf16Machine (be : Bool) : Machine :=
   { σ := U16, init := {}, step := step16 be, finish := finish16 }
 
+/-! ### encoding_rs' UTF-8 decoder (`new_decoder_with_bom_removal`), WHATWG "UTF-8 decoder"
+
+State: the bytes of an incomplete sequence seen so far (always a proper prefix of a well-formed sequence)
+and whether anything was emitted yet.  A byte that cannot continue the pending sequence ends it with one
+U+FFFD and is then looked at afresh ("prepend byte to stream"). -/
+
+/-- Length of the sequence a lead byte announces; 0 for a byte that cannot start one. -/
+def need (b0 : Nat) : Nat :=
+  if 0xC2 ≤ b0 && b0 ≤ 0xDF then 2
+  else if 0xE0 ≤ b0 && b0 ≤ 0xEF then 3
+  else if 0xF0 ≤ b0 && b0 ≤ 0xF4 then 4
+  else 0
+
+/-- May `b` follow the incomplete sequence `p`?  The second byte has lead-specific bounds. -/
+def okNext (p : Bytes) (b : Nat) : Bool :=
+  match p with
+  | [b0] =>
+    if need b0 = 3 then
+      (if b0 == 0xE0 then 0xA0 ≤ b && b ≤ 0xBF else if b0 == 0xED then 0x80 ≤ b && b ≤ 0x9F else isCont b)
+    else if need b0 = 4 then
+      (if b0 == 0xF0 then 0x90 ≤ b && b ≤ 0xBF else if b0 == 0xF4 then 0x80 ≤ b && b ≤ 0x8F else isCont b)
+    else isCont b
+  | _ => isCont b
+
+structure U8 where
+  first : Bool := true      -- nothing emitted yet: a leading EF BB BF is the decoder's own mark
+  pend : Bytes := []        -- incomplete sequence
+  deriving Repr, DecidableEq, Inhabited
+
+/-- A byte seen with no sequence pending. -/
+def start8 (s : U8) (b : Nat) : U8 × Bytes :=
+  if b < 0x80 then ({ first := false, pend := [] }, [b])
+  else if 2 ≤ need b then ({ s with pend := [b] }, [])
+  else ({ first := false, pend := [] }, utf8Encode replacement)
+
+def step8 (s : U8) (b : Nat) : U8 × Bytes :=
+  match s.pend with
+  | [] => start8 s b
+  | b0 :: q =>
+    if okNext (b0 :: q) b then
+      if q.length + 2 = need b0 then
+        let sq := b0 :: q ++ [b]
+        if s.first && sq == [0xEF, 0xBB, 0xBF] then ({ first := false, pend := [] }, [])
+        else ({ first := false, pend := [] }, sq)
+      else ({ s with pend := b0 :: q ++ [b] }, [])
+    else
+      let (s', o) := start8 { first := false, pend := [] } b
+      (s', utf8Encode replacement ++ o)
+
+def finish8 (s : U8) : Bytes := if s.pend.isEmpty then [] else utf8Encode replacement
+
+def utf8Machine : Machine := { σ := U8, init := {}, step := step8, finish := finish8 }
+
+/-! ### a single-byte table decoder (windows-1252 and friends): no state -/
+
+def tableMachine (table : Nat → Nat) : Machine :=
+  { σ := Unit, init := (), step := fun _ b => ((), utf8Encode (table b)), finish := fun _ => [] }
+
 /-! ### `encoding_rs_io::DecodeReaderBytes` as configured by the searcher -/
 
 /-- `BomPeeker::peek_bom`: read until three bytes are there (or the stream ends). -/
@@ -174,6 +233,14 @@ def readerOutput (c : Cfg) (M : Enc → Machine) (chunks : List Bytes) : Bytes :
   match p.decoder with
   | none => body.flatten
   | some e => (M e).decode (body.flatMap (fun ch => splitCap scratch ch.length ch))
+
+/-- `DecodeReaderBytes::transcode` at the end of the input when the caller offers fewer than 4 bytes of room
+(`tiny_transcode`): the flush goes into the `TinyTranscoder`, `tiny.read(buf)` hands out `buf.len()` bytes, and
+the rest is never delivered — the next call returns 0 on `self.exhausted` before it looks at `self.tiny`.
+The line searchers always offer kilobytes; `read_to_end` (multi-line strategy, `fill_multi_line_buffer_from_reader`)
+offers whatever spare capacity its `Vec` has. -/
+def finalFlush (room : Nat) (flush : Bytes) : Bytes :=
+  if room < 4 then flush.take room else flush
 
 /-- `slice_has_bom`. -/
 def sliceHasBom (slice : Bytes) : Bool := (bomOf slice).isSome
